@@ -432,6 +432,16 @@ theorem producer_protocol_pinned :
 def exCyc : Hist := fun n => if n = 1 then some [1, 2] else if n = 2 then some [1] else none
 example : order exCyc 10 [1] = [2, 1] := by decide
 example : order exCyc 10 [2, 1, 2] = [2, 1] := by decide
+/-- `walk_fuel_sufficient` on the cycle: two relations have a history, fuel 3 is enough and more changes nothing -/
+example : order exCyc (2 + 1) [2, 1, 2] = order exCyc (2 + 1 + 7) [2, 1, 2] := by decide
+example : ∀ y ms, exCyc y = some ms → y ∈ [1, 2] := by
+  intro y ms h
+  unfold exCyc at h
+  split at h
+  · rename_i e; subst e; simp
+  · split at h
+    · rename_i e; subst e; simp
+    · cases h
 def exDag : Hist := fun n => if n = 3 then some [2, 1, 0] else if n = 2 then some [1] else if n = 1 then some [] else none
 example : order exDag 10 [3, 1] = [1, 2, 3] := by decide
 example : Acyclic exDag id := by
